@@ -20,7 +20,7 @@
 struct in_s {
 	uint8_t msg[LEN + 1];
 	a_word_t out[V_MAXCALLS][A_STW];
-	uint8_t havoc[V_MAXCALLS][A_HAVOC];
+	a_havoc_t havoc[V_MAXCALLS][A_HAVOC];
 };
 #include "verif_in.h"
 #include "common/hash/v_oracle.h"
